@@ -7,7 +7,9 @@ import (
 	"fmt"
 	"io"
 	"math"
+	"runtime"
 	"strings"
+	"time"
 
 	"verifharness/internal/hx"
 	"verifharness/internal/prng"
@@ -305,6 +307,7 @@ func main() {
 		}
 		emit(cap, ops)
 	}
+	bigBuffers(s)
 	s.Close("exhaustive: capacities 0..maxCap x every rotation of the indices x every fill level x all op sequences of depth d over the step alphabet; "+
 		"random: seeded sequences of 40-60 steps on capacities 0..4 and 49..130. distinct = by content hash; non-trivial = at least 3 operations with at least one accepted-or-rejected Write and one consuming operation (Read/ReadN/Skip/Clear)", false)
 }
@@ -314,4 +317,68 @@ func capClass(c int) string {
 		return fmt.Sprint(c)
 	}
 	return "49..130"
+}
+
+// bigBuffers: capacities of 70 000 and 300 000 (whatever a buffer does differently for large arrays has its chance):
+// fill, drop everything by Skip / ReadN / Clear, write again AT ONCE, and read back - every element written after the
+// drop comes back, in order; the dropped ones never do.  Compared with a plain slice queue (no Coq: the model's runs stay small).
+func bigBuffers(s *hx.Sink) {
+	for ci, cp := range []int{70000, 300000} {
+		for round := 0; round < 6; round++ {
+			rb := container.NewRingBuffer[int64](uint(cp))
+			next := int64(1)
+			fail := func(what string, detail any) {
+				s.DirectViolation(0, "big buffer: "+what, map[string]any{"capacity": cp, "round": round, "detail": detail})
+			}
+			for i := 0; i < cp-round*7; i++ {
+				if err := rb.Write(next); err != nil {
+					fail("Write into a buffer that is not full failed", fmt.Sprint(err))
+					return
+				}
+				next++
+			}
+			switch round % 3 {
+			case 0:
+				if n := rb.Skip(rb.Len()); n != cp-round*7 {
+					fail("Skip(Len()) skipped another number", n)
+					return
+				}
+			case 1:
+				dst := make([]int64, cp)
+				if n := rb.ReadN(dst); n != cp-round*7 {
+					fail("ReadN into a slice of the capacity moved another number than Len()", n)
+					return
+				}
+			default:
+				rb.Clear()
+			}
+			first := next
+			m := 1000 + ci*500 + round
+			for i := 0; i < m; i++ {
+				if err := rb.Write(next); err != nil {
+					fail("Write into an emptied buffer failed", fmt.Sprint(err))
+					return
+				}
+				next++
+			}
+			runtime.Gosched()
+			time.Sleep(2 * time.Millisecond)
+			if rb.Len() != m {
+				fail("Len() after writing into the emptied buffer", map[string]any{"len": rb.Len(), "written": m})
+				return
+			}
+			for i := 0; i < m; i++ {
+				v, err := rb.Read()
+				if err != nil || v != first+int64(i) {
+					fail("an element written after the buffer was emptied does not come back", map[string]any{"position": i, "want": first + int64(i), "got": v, "err": fmt.Sprint(err)})
+					return
+				}
+			}
+			if _, err := rb.Read(); err == nil {
+				fail("Read on the empty buffer did not report io.EOF", nil)
+				return
+			}
+		}
+	}
+	s.Count("big-buffers")
 }
